@@ -60,7 +60,8 @@ def gen_bool_expr(rng, in_loops):
     if r < 0.22:
         return rng.choice([True, False])
     if r < 0.40:
-        return rng.choice(['true', 'True', 'TRUE', 'false', '1', '0', '1.0', '1.00', 'yes', '', ' 1', 'tRuE', 'None'])
+        return rng.choice(['true', 'True', 'TRUE', 'false', '1', '0', '1.0', '1.00', 'yes', '', ' 1', 'tRuE', 'None',
+                           'true\n', '1\n', '1.0\n', 'TRUE\n', 'true\n\n', 'true ', '\ttrue', 'true\r\n', '{nl}', '{nl}'])
     if r < 0.52:
         return rng.choice(['{flag}', '{nflag}', '{sflag}', '{n}', '{empty}', 'x{flag}', '{word}'])
     if r < 0.58:
@@ -316,7 +317,8 @@ def gen_case(rng, profile=None):
                ['lst', {'l': rng.choice([[1, 2], ['a', 'b'], [2, 'b', 3], []])}], ['empty', {'l': []}],
                ['cnt', 0], ['grp', rng.choice(['gz', 'gz', 'gz', 'nogroup'])],
                ['word', rng.choice(['abc', 'x y', 'true'])], ['tup', {'t': ['t1', 't2']}],
-               ['bo', rng.choice(['fixed', 'linear'])]]
+               ['bo', rng.choice(['fixed', 'linear'])],
+               ['nl', rng.choice(['true\n', '1\n', 'True\n', '1.0\n', 'false\n'])]]
     case = {'lib': lib, 'main': 'main', 'dict_in': dict_in, 'jit': rng.choice([[1, 4], [0, 1], [1, 1], [1, 2]])}
     if rng.random() < 0.08:
         case['dict_in'] = None
